@@ -1,7 +1,7 @@
 """C03 — serial simulations are deterministic (spec/ckpt/Det.tla)."""
 import os
 from vlib import core
-from vlib import netckpt, vmckpt
+from vlib import netckpt, vmckpt, memckpt
 
 LEVEL = "exploration"
 TECHNIQUE = "self-composition: the same seeded assemblies are run in separate OS processes (fresh map seeds, GOMAXPROCS 1/4/16); TLC validates each observation stream against the first (Det.tla)"
@@ -42,3 +42,4 @@ def run(ck):
     ck.note("%d assemblies x %d processes, %d records each" % (out["systems"], len(paths), out["records"]))
     netckpt.run_c03(ck)
     vmckpt.run_c03(ck)
+    memckpt.run_c03(ck)
